@@ -3,8 +3,8 @@
      world line := "D" key "U" n rune* "W" n (name decl)*      (defines world <key>)
      case line  := "X" key "U" n rune* "O" n op*                (ops on a fresh copy of world <key>)
      decl := "I" z | "F" n name* body | "H" n (name decl)* | "P" name n (name decl)* | "R" n name*
-     body := "G" name | "S" name | "D" n name*
-     op   := "g" route n name* | "s" route n name* z | "c" n name* n z*
+     body := "G" name | "S" name | "D" n name* | "W" n name* | "C" n name* n z*
+     op   := "g" route n name* | "s" route n name* z | "c" n name* n z* | "v" param argsym n name* n z*
    route (projection of a read): full | plus | type
    Output: ID<TAB>model observables joined by "|"<TAB>specification observables joined by "|" *)
 open Model
@@ -41,6 +41,9 @@ let parse_body () =
   | "G" -> BGet (next_name ())
   | "S" -> BSet (next_name ())
   | "D" -> BDot (names ())
+  | "W" -> BDotSet (names ())
+  | "C" -> let p = names () in let n = next_int () in
+           BDotCall (p, times n (fun () -> z_of_string (next ())))
   | t -> failwith ("bad body " ^ t)
 
 let rec parse_decl () =
@@ -60,6 +63,10 @@ let parse_op () =
   | "s" -> let r = next () in let p = names () in let z = z_of_string (next ()) in { o = OpSet (p, z); route = "full" }
   | "c" -> let p = names () in let n = next_int () in
            let args = times n (fun () -> z_of_string (next ())) in { o = OpCall (p, args); route = "full" }
+  | "v" -> let param = next_name () in let argsym = next_name () in
+           let p = names () in let n = next_int () in
+           let args = times n (fun () -> z_of_string (next ())) in
+           { o = OpCallVia (param, argsym, p, args); route = "full" }
   | t -> failwith ("bad op " ^ t)
 
 (* rendering of values; hashes by content (insertion order), packages by name *)
